@@ -574,9 +574,9 @@ def get_and_reserve_spendable_utxos(transaction: sqlite3.Connection, accounts: L
     multiplier = base_multiplier
     gap_count = 0
 
-    while reserved_dewies < amount_to_reserve and gap_count < 5 and floor * multiplier < SQLITE_MAX_INTEGER:
+    while reserved_dewies < amount_to_reserve and gap_count < 5 and floor < SQLITE_MAX_INTEGER:
         previous_reserved_dewies = reserved_dewies
-        ceiling = max(floor, 1) * multiplier
+        ceiling = min(max(floor, 1) * multiplier, SQLITE_MAX_INTEGER)
         reserved_dewies = _get_spendable_utxos(
             transaction, accounts, decoded_transactions, txs, reserved, amount_to_reserve, reserved_dewies,
             floor, ceiling, fee_per_byte
